@@ -19,7 +19,7 @@ ID = "C51"
 ENGINE = "fs"
 LEVEL = "fault_enumeration"
 TECHNIQUE = "deterministic simulation: crash at every interposed filesystem call (+ torn writes, nested crash during recovery) of seeded DirDBM histories vs in-memory map"
-QUICK_RUNS = 700
+QUICK_RUNS = 2400
 BATCH = 10
 COMPONENTS = {"real": ["twisted.persisted.dirdbm.DirDBM/Shelf (__init__ recovery, __setitem__, __delitem__, __getitem__, keys)", "twisted.python.filepath.FilePath",
                        "the real filesystem under a scratch directory (reads)"],
